@@ -33,7 +33,7 @@ ASSUMPTIONS = [
 ]
 MANIFEST = {
     'level': 'exploration',
-    'technique': 'runtime differential monitor: production text -> RIB -> UPDATE bytes path vs the intent drawn with the text, decoded by an independent RFC codec under independently negotiated session parameters',
+    'technique': 'runtime differential monitor: production text -> RIB -> UPDATE bytes path vs the intent drawn with the text, decoded by an independent RFC codec under independently negotiated session parameters; a sample of the same workload over the real daemon process (configuration routes and routes announced by a real helper process, observed on the TCP connection of a scripted peer)',
     'text': 'Seeded (route text, session) pairs through the real parser and encoder; every emitted UPDATE is decoded by the reference '
     'and compared with the intended prefixes, path ids, labels, RDs, next hop and attribute values plus the RFC defaults.',
     'note': 'trusted base: refwire decoder + negotiate, gen_text grammar/intent; IP families only (unicast, labeled, vpn)',
